@@ -58,3 +58,21 @@ Proof.
   - simpl. eexists. split; [reflexivity|]. split; [vm_compute; reflexivity|]. eexists. split; [reflexivity|]. split; vm_compute; reflexivity.
   - simpl. eexists. split; [reflexivity|]. split; vm_compute; reflexivity.
 Qed.
+
+(* ---- the declaration invariants on the shipped tables ----
+   The per-run obligation Gen_reciprocal.shipped_tables_reciprocal evaluates reciprocalb / oppositeb (Model/Declare.v) on the exported
+   _ratios / _offsets; these two theorems say what a `true` means: for every pair the table answers, the other direction answers too,
+   with the reciprocal within the tolerance (the implementation stores floats) / with exactly the opposite offset.  They are the
+   invariants C08_declarations_keep_table_reciprocal and C10_history_tables prove of every history of declarations. *)
+From Coq Require Import Qabs.
+From Measured Require Import Model.Declare Proofs.EquateFacts.
+
+Theorem C09_reciprocal_check_sound : forall eps t, reciprocalb eps t = true ->
+  forall c d r, tget t c d = Some r -> exists r', tget t d c = Some r' /\ (Qabs (r * r' - 1) <= eps)%Q.
+Proof. exact reciprocalb_sound. Qed.
+Print Assumptions C09_reciprocal_check_sound.
+
+Theorem C09_opposite_check_sound : forall o, oppositeb o = true ->
+  forall c d z, tget o c d = Some z -> exists z', tget o d c = Some z' /\ (z + z' == 0)%Q.
+Proof. exact oppositeb_sound. Qed.
+Print Assumptions C09_opposite_check_sound.
